@@ -24,6 +24,7 @@ func conformLimit(tier string) int {
 
 func conformCorpus() []conformCase {
 	srcs := []string{
+		`#sync`, // sync.Map / Mutex / Once / atomics from their real source on the executor's sync/atomic model
 		`(+ 1 1)`, `(= 1 1)`, `(if T 1 0)`, `(if (< a 18) "Child" "Adult")`,
 		`(and (> a 1) (or T (= b 2)))`,
 		`(< (+ 1 (- 2 v3) (/ 6 3) 4) (* 5 6 7))`,
